@@ -27,7 +27,9 @@ def handle (case obs : List String) : String × String :=
         | none => "fail:bad-case"
         | some c =>
           let (frs, left) := Spec.Framing.split (dataOf c.evs)
-          let msgs := frs.filterMap (payloadMsg c.tab)
+          -- each frame's payload (decompressed by the reference decompressor) read by the case's message
+          -- decoder: the raw bytes, or for the prost codec the message prost itself decodes from them
+          let msgs := (frs.filterMap (payloadMsg c.tab)).filterMap (recvOfCase c).de
           let rest := (obs.filter (fun t => t ≠ "p" && tokKind t ≠ 'a')).drop msgs.length
           verdict [("no-panic", !obs.any isBad),
                    ("case-is-valid-stream", left.isEmpty && msgs.length == frs.length),
